@@ -297,6 +297,19 @@ func addTiming(r *Rand, in *Input, nrelays int) {
 				op.RelayLat = append(op.RelayLat, LatIn{Addr: uint64(a), Ms: pickLat(r, kind[uint64(a)] == "err")})
 			}
 			if op.Kind == "round" {
+				// a remote signer: 5 or 10 ms per request, all requests of a round well within the
+				// half second after which time.Now().Round(time.Second) would be the next second
+				reqs := 0
+				for _, vi := range op.Vals {
+					if vi.Res != nil {
+						reqs += len(vi.Res.Relays)
+					} else if op.RealCfg != "" {
+						reqs += 4
+					}
+				}
+				if r.Chance(2, 3) && reqs*10 <= 400 {
+					op.SignLat = uint64(5 * r.Range(1, 2))
+				}
 				for k := 0; k < in.NNodes; k++ {
 					op.NodeLat = append(op.NodeLat, pickLat(r, k < len(op.Nodes) && op.Nodes[k] == "err"))
 				}
